@@ -31,7 +31,7 @@ Theorem C05_strict_partial :
     root_type_name S kind = Ok root ->
     op_parse fuel C S frs kind name [] sels = Ok (own, pub', false) ->
     all_classes fuel C S frs (DOp kind name [] sels) = Ok cls ->
-    op_ok g true C S root sels = true -> sels_strict gs C S false root sels = true ->
+    op_ok g true C S frs root sels = true -> sels_strict gs C S frs false root sels = true ->
     no_basemodel own = true ->
     accepts n cls (schema_enums S) (AClass (pascal_s name)) j = true ->
     covers n cls (AClass (pascal_s name)) j = true ->
@@ -45,7 +45,7 @@ Theorem C05_strict_partial_rejects :
     root_type_name S kind = Ok root ->
     op_parse fuel C S frs kind name [] sels = Ok (own, pub', false) ->
     all_classes fuel C S frs (DOp kind name [] sels) = Ok cls ->
-    op_ok g true C S root sels = true -> sels_strict gs C S false root sels = true ->
+    op_ok g true C S frs root sels = true -> sels_strict gs C S frs false root sels = true ->
     no_basemodel own = true ->
     (forall fc, conf_op_gen lax_leaf false fc S frs root sels j = false) ->
     covers n cls (AClass (pascal_s name)) j = true ->
@@ -57,7 +57,7 @@ Print Assumptions C05_strict_partial_rejects.
 Theorem C05_object_strict :
   forall C S frs fuel g gs nested pub cn tn sels tv out pub' cs kv n,
     parse_type_def fuel C S frs pub cn tn sels false [] tv = Ok (out, pub', false) ->
-    sels_ok g true C S nested tn sels = true -> sels_strict gs C S nested tn sels = true ->
+    sels_ok g true C S frs nested tn sels = true -> sels_strict gs C S frs nested tn sels = true ->
     tv = (if nested then Some [tn] else None) -> table_ok cs out ->
     accepts n cs (schema_enums S) (AClass cn) (JObj kv) = true ->
     covers n cs (AClass cn) (JObj kv) = true ->
@@ -176,7 +176,8 @@ Definition SY : schema :=
 Definition selsY : list sel :=
   [SField (Some "people") "users" false []
      (Some [SField None "__typename" false [] None; SField None "id" false [] None;
-            SField (Some "name") "fullName" true [] None; SField None "role" false [] None;
+            SInline (Some "User") false
+              [SField (Some "name") "fullName" true [] None; SField None "role" false [] None];
             SField (Some "homeAddress") "address" false []
               (Some [SField None "city" false [] None; SField None "zip" true [] None])])].
 Definition userY (tn : json) (id : json) (addr : json) : json :=
@@ -187,7 +188,7 @@ Example C05_partial_hypotheses_satisfiable :
     root_type_name SY "query" = Ok "Query" /\
     op_parse 10 C0 SY [] "query" "GetPeople" [] selsY = Ok (own, pub', false) /\
     all_classes 10 C0 SY [] (DOp "query" "GetPeople" [] selsY) = Ok cls /\
-    op_ok 10 true C0 SY "Query" selsY = true /\ sels_strict 10 C0 SY false "Query" selsY = true /\
+    op_ok 10 true C0 SY [] "Query" selsY = true /\ sels_strict 10 C0 SY [] false "Query" selsY = true /\
     no_basemodel own = true /\
     (* accepted and covered, with a lax Int leaf *)
     (let j := userY (JStr "User") (JStr "1") (JObj [("city", JStr "X"); ("zip", JStr "12")]) in
